@@ -28,6 +28,11 @@ func (s *subContext) GetKey(k string) string {
 	return s.parent.GetKey(k)
 }
 
+// A sub-context of the static-analysis probe is a probe
+func (s *subContext) IsStaticProbe() bool {
+	return s.parent != nil && IsStaticProbe(s.parent)
+}
+
 func (s *subContext) Eval(stage KeyBuilderStage, v0, v1 string) string {
 	s.vals[0] = v0
 	s.vals[1] = v1
